@@ -37,7 +37,8 @@ DQ == 34   SQ == 39   BS == 92   DOLLAR == 36   LBRACE == 123
 
 \* ---- the value alphabet -------------------------------------------------------------
 \* (98 b, 110 n, 117 u: letters that are also the names of escapes)
-Alphabet == {8, 9, 10, 12, 13, 31, 32, 34, 36, 39, 47, 92, 123, 125, 37, 97, 98, 110, 117, 127, 233, 8232, 55295, 57344, 65535, 65536, 128512, 1114111}
+\* (101 + 769: e followed by a combining acute; 8491: ANGSTROM SIGN - text that Unicode normalisation would rewrite)
+Alphabet == {8, 9, 10, 12, 13, 31, 32, 34, 36, 39, 47, 92, 123, 125, 37, 97, 98, 101, 110, 117, 127, 233, 769, 8491, 8232, 55295, 57344, 65535, 65536, 128512, 1114111}
 Short == (8 :> 98) @@ (12 :> 102) @@ (10 :> 110) @@ (13 :> 114) @@ (9 :> 116) @@ (47 :> 47) @@ (92 :> 92) @@ (36 :> 36)
 
 Forms(cp, q) ==
